@@ -16,14 +16,42 @@ CODEC_CLASSES = ("Dimension", "Prefix", "Unit", "Quantity")
 PICKLE_HOOKS = ("__reduce__", "__reduce_ex__", "__getstate__", "__setstate__", "__copy__", "__deepcopy__")
 
 
-def dict_keys_written(fn: ast.AST) -> Set[str]:
-    keys: Set[str] = set()
-    for r in ast.walk(fn):
-        if isinstance(r, ast.Return) and isinstance(r.value, ast.Dict):
-            for k in r.value.keys:
+def written_dict(fn: ast.AST) -> Dict[str, ast.AST]:
+    """key -> value expression of the dict a writer returns: a literal, dict(k=v, ..), or a local that starts
+    as one of those and is filled key by key."""
+    out: Dict[str, ast.AST] = {}
+
+    def add(e: Optional[ast.AST]) -> None:
+        if isinstance(e, ast.Dict):
+            for k, v in zip(e.keys, e.values):
                 if isinstance(k, ast.Constant) and isinstance(k.value, str):
-                    keys.add(k.value)
-    return keys
+                    out[k.value] = v
+        elif isinstance(e, ast.Call) and ast.unparse(e.func) == "dict":
+            for a in e.args:
+                add(a)
+            for kw in e.keywords:
+                if kw.arg:
+                    out[kw.arg] = kw.value
+    for r in ast.walk(fn):
+        if not (isinstance(r, ast.Return) and r.value is not None):
+            continue
+        if isinstance(r.value, ast.Name):
+            nm = r.value.id
+            for n in ast.walk(fn):
+                if isinstance(n, ast.Assign) and len(n.targets) == 1 and isinstance(n.targets[0], ast.Name) and n.targets[0].id == nm:
+                    add(n.value)
+                elif isinstance(n, ast.AnnAssign) and isinstance(n.target, ast.Name) and n.target.id == nm:
+                    add(n.value)
+                elif isinstance(n, ast.Assign) and len(n.targets) == 1 and isinstance(n.targets[0], ast.Subscript) and isinstance(n.targets[0].value, ast.Name) \
+                        and n.targets[0].value.id == nm and isinstance(n.targets[0].slice, ast.Constant) and isinstance(n.targets[0].slice.value, str):
+                    out[n.targets[0].slice.value] = n.value
+        else:
+            add(r.value)
+    return out
+
+
+def dict_keys_written(fn: ast.AST) -> Set[str]:
+    return set(written_dict(fn))
 
 
 def keys_read(fn: ast.AST, param: str) -> Set[str]:
@@ -60,11 +88,14 @@ def newargs_cover_key(rep: Report, prog: Program, rid: str, classes: Tuple[str, 
         if len(rets) != 1:
             raise AnalysisError(f"{cls}.__getnewargs_ex__: expected one return")
         local: Dict[str, ast.AST] = {}
+        alldefs: Dict[str, List[ast.AST]] = {}
         for n in ast.walk(gna.node):
             if isinstance(n, ast.Assign) and len(n.targets) == 1 and isinstance(n.targets[0], ast.Name):
-                local[n.targets[0].id] = n.value
+                local.setdefault(n.targets[0].id, n.value)
+                alldefs.setdefault(n.targets[0].id, []).append(n.value)
             elif isinstance(n, ast.AnnAssign) and isinstance(n.target, ast.Name) and n.value is not None:
-                local[n.target.id] = n.value
+                local.setdefault(n.target.id, n.value)
+                alldefs.setdefault(n.target.id, []).append(n.value)
 
         def deref(e: ast.AST) -> ast.AST:
             seen = 0
@@ -72,6 +103,16 @@ def newargs_cover_key(rep: Report, prog: Program, rid: str, classes: Tuple[str, 
                 e = local[e.id]
                 seen += 1
             return e
+
+        def self_attrs(e: ast.AST, depth: int = 0) -> Set[str]:
+            """attributes of self that may flow into e (every definition of every local it uses)"""
+            out_ = {n.attr for n in ast.walk(e) if isinstance(n, ast.Attribute) and isinstance(n.value, ast.Name) and n.value.id == gna.params()[0]}
+            if depth < 4:
+                for x in ast.walk(e):
+                    if isinstance(x, ast.Name) and x.id in alldefs:
+                        for d in alldefs[x.id]:
+                            out_ |= self_attrs(d, depth + 1)
+            return out_
         rv = deref(rets[0].value)
         if gna.name == "__getnewargs__":
             args: ast.AST = rv
@@ -86,18 +127,20 @@ def newargs_cover_key(rep: Report, prog: Program, rid: str, classes: Tuple[str, 
         if isinstance(args, ast.Tuple):
             for i, a in enumerate(args.elts):
                 if i < len(params):
-                    given[params[i]] = deref(a)
+                    given[params[i]] = a
+        if isinstance(kwargs, ast.Call) and ast.unparse(kwargs.func) == "dict" and not kwargs.args:
+            kwargs = ast.Dict(keys=[ast.Constant(value=k.arg) for k in kwargs.keywords if k.arg], values=[k.value for k in kwargs.keywords if k.arg])
         if isinstance(kwargs, ast.Dict):
             for k, v in zip(kwargs.keys, kwargs.values):
                 if isinstance(k, ast.Constant) and isinstance(k.value, str):
-                    given[k.value] = deref(v)
+                    given[k.value] = v
         ok, why = True, ""
         for kp in key_params:
             e = given.get(kp)
             if e is None:
                 ok, why = False, f"the key parameter `{kp}` of {cls}.__new__ is not passed (it falls back to its default, another interned object)"
                 break
-            names = {n.attr for n in ast.walk(e) if isinstance(n, ast.Attribute) and isinstance(n.value, ast.Name) and n.value.id == gna.params()[0]}
+            names = self_attrs(e)
             if kp not in names:
                 ok, why = False, f"`{kp}` is passed `{ast.unparse(e)[:40]}`, not self.{kp}"
                 break
@@ -292,11 +335,9 @@ def run(rep: Report) -> None:
         rep.check("R15.2", f"{cls}:keys", bool(written) and read <= written,
                   f"{cls}.__from_json__ reads {sorted(read - written)} which {cls}.__json__ does not write", rd.where())
         tags = set()
-        for r in ast.walk(w.node):
-            if isinstance(r, ast.Return) and isinstance(r.value, ast.Dict):
-                for k, v in zip(r.value.keys, r.value.values):
-                    if isinstance(k, ast.Constant) and k.value == "__measured__" and isinstance(v, ast.Constant):
-                        tags.add(v.value)
+        tv = written_dict(w.node).get("__measured__")
+        if isinstance(tv, ast.Constant):
+            tags.add(tv.value)
         rep.check("R15.2", f"{cls}:tag", tags == {cls}, f"{cls}.__json__ emits tag(s) {sorted(tags)}", w.where())
         rep.check("R15.2", f"{cls}:dispatch", dispatch.get(cls) == cls,
                   f"MeasuredJSONDecoder.object_hook sends tag {cls!r} to {dispatch.get(cls)}", hook.where())
